@@ -69,6 +69,10 @@ def render_stmt(s):
         return f'    jmp {rval(s[1])}'
     if k == 'brr':
         return f'    brr {rval(s[1])}'
+    if k == 'n12':
+        return f'    n12 {rval(s[1])}'
+    if k == 'm2':
+        return f'    m2 {rval(s[1])}, {rval(s[2])}'
     if k == 'data':
         return f'    {DATA_DIRECTIVE[s[1]]} ' + ', '.join(rval(v) for v in s[2])
     if k == 'fill':
@@ -484,8 +488,10 @@ class RefAsm:
         k = line.kind
         if k in ('nop', 'hlt'):
             return 1
-        if k in ('ldi', 'brr'):
+        if k in ('ldi', 'brr', 'n12'):
             return 2
+        if k == 'm2':
+            return 4
         if k == 'jmp':
             return 1 + self.p.addr_bytes
         if k == 'data':
@@ -594,6 +600,14 @@ class RefAsm:
                 if off < -128 or off > 127:
                     raise Reject('brr offset out of range')
                 line.bytes = bytes([0x80, off & 0xFF])
+            elif k in ('n12', 'm2'):
+                out = b''
+                for v in s[1:]:
+                    v = self.value(line.scope, v)
+                    if v < -128 or v > 255:
+                        raise Reject('n12 immediate does not fit 8 bits')
+                    out += bytes([0x30 | ((v & 0xFF) >> 4), ((v & 0xF) << 4)])
+                line.bytes = out
             elif k == 'data':
                 line.bytes = b''.join(self.to_bytes(self.value(line.scope, v), s[1]) for v in s[2])
             elif k == 'fill':
